@@ -419,6 +419,56 @@ def r02_8(ctx):
         (ctx.ok(construct, f.loc(dep[0])) if ok else ctx.bad(construct, f"guards {sorted(gs)}; followed by return: {isinstance(nxt, ast.Return)}", f.loc(dep[0])))
 
 
+def r02_9(ctx):
+    """R02.9 (a) every return of _escape is the full escape chain (no shortcut returns the raw string); (b) `promptless`
+    is decided over all definitions of a symbol, never from nodes[0] alone, in the marker predicate and in the loader;
+    (c) writers never split configuration text with str.splitlines() (it also splits on form feed, U+2028, ...)."""
+    repo = ctx.repo
+    esc = repo.func(f"{CORE}:_escape")
+    param = esc.node.args.args[0].arg
+    rets = [n for n in ast.walk(esc.node) if isinstance(n, ast.Return)]
+    construct = "_escape/every return is the escape chain"
+    bad = []
+    for r in rets:
+        rc = replace_chain(r.value) if r.value is not None else None
+        if rc is None or rc[0] != param or not rc[1] or rc[1][0] != ("\\", "\\\\"):
+            bad.append(r)
+    (ctx.bad(construct, f"`{ast.unparse(bad[0])}` returns without escaping backslashes (unescape() on reload strips them): values with a backslash "
+             "but no quote do not round-trip", esc.loc(bad[0])) if bad or not rets else ctx.ok(construct, esc.loc(), returns=len(rets)))
+    n_sites = 0
+    for q in (f"{CORE}:Symbol.has_active_default_value", f"{CORE}:Kconfig._load_config", f"{CORE}:Symbol._rec_invalidate_if_has_prompt",
+              f"{CORE}:_visibility", f"{CORE}:Symbol.config_string"):
+        f = repo.func(q)
+        ctx.analysed(q)
+        first_only = [n for n in ast.walk(f.node) if isinstance(n, ast.Attribute) and n.attr == "prompt" and isinstance(n.value, ast.Subscript)
+                      and isinstance(n.value.value, ast.Attribute) and n.value.value.attr == "nodes" and isinstance(n.value.slice, ast.Constant)]
+        quant = [n for n in ast.walk(f.node) if isinstance(n, (ast.GeneratorExp, ast.For)) and
+                 ast.unparse(n.generators[0].iter if isinstance(n, ast.GeneratorExp) else n.iter).endswith(".nodes")]
+        if not first_only and not quant:
+            continue
+        n_sites += 1
+        construct = f"{f.short}/prompt tests quantify over all definitions"
+        (ctx.bad(construct, f"`{ast.unparse(first_only[0])}` looks at the first definition only: a symbol whose first definition is promptless but which "
+                 "has a prompt elsewhere is treated as promptless (always default-marked, user value ignored for the marker)", f.loc(first_only[0]))
+         if first_only else ctx.ok(construct, f.loc(quant[0]), sites=len(quant)))
+    if n_sites < 3:
+        raise AnalysisError(f"only {n_sites} prompt-quantifying functions found")
+    for q in (f"{CORE}:Kconfig.write_min_config", f"{CORE}:Kconfig._config_contents", f"{CORE}:Kconfig._min_config_contents", f"{CORE}:Kconfig.write_config"):
+        f = repo.func(q)
+        sl = [n for n in ast.walk(f.node) if isinstance(n, ast.Call) and isinstance(n.func, ast.Attribute) and n.func.attr == "splitlines"]
+        construct = f"{f.short}/configuration text is split on newlines only"
+        (ctx.bad(construct, "str.splitlines() also splits on form feed, U+001C-1E, U+0085, U+2028/9: a string value containing one is broken across lines",
+                 f.loc(sl[0])) if sl else ctx.ok(construct, f.loc(), nontrivial=False))
+
+
+def r02_10(ctx):
+    """R02.10 reloading a tool-written file compares default-marked entries against the complete user state: they are
+    resolved after all lines and after the deferred user choice selections (C08 R08.5) - otherwise a default that depends
+    on the picked member is reported as a mismatch on reload."""
+    from . import c08
+    c08.r08_5(ctx)
+
+
 def rules():
     return [("R02.1", r02_1, 8), ("R02.2", r02_2, 8), ("R02.3", r02_3, 9), ("R02.4", r02_4, 3), ("R02.5", r02_5, 5),
-            ("R02.6", r02_6, 3), ("R02.7", r02_7, 3), ("R02.8", r02_8, 2)]
+            ("R02.6", r02_6, 3), ("R02.7", r02_7, 3), ("R02.8", r02_8, 2), ("R02.9", r02_9, 6), ("R02.10", r02_10, 3)]
